@@ -300,9 +300,17 @@ func runC12(c C12Case, cs *kit.CaseStats) error {
 	quiescent := false
 	rounds, reconnects := 0, 0
 	lastLive, lastSynced := true, true
+	lastIter := time.Now()
 	for time.Since(start) < netBudget() {
 		time.Sleep(netTick)
 		rounds++
+		iterLag := time.Since(lastIter)
+		lastIter = time.Now()
+		if iterLag > 5*netTick {
+			// the machine is starved: relays and syncs may be lagging as well, so
+			// this is no time to conclude that nothing is going on
+			lastChange = time.Now()
+		}
 		changed := false
 		for i, n := range nodes {
 			n.sn.CM.SampleWork()
